@@ -12,7 +12,7 @@ def _c15_order(bases, preops):
     # one tet: one query; larger bases: N queries (part 0 = cells + first range of halffaces, the others = further ranges of halffaces)
     out = []
     for b in bases:
-        n = 1 if b == _T_ONE else (3 if b == _T_RING else 2)
+        n = 1 if b == _T_ONE else (4 if b == _T_RING else 2)
         out += [{0: b, 1: p, 2: part, 3: n} for p in preops for part in range(n)]
     return out
 
@@ -65,7 +65,7 @@ PROPS["C15"] = dict(
                  "thorough": _c15_order(range(5), range(8))},
          timeout={"quick": 300, "thorough": 900}, mem_gb=4,
          bounds=_C15_BASES + ", optionally after one swap_{cell,face,edge,vertex}_indices(first,last) or delete_cell(0) in immediate / deferred / fast mode; "
-                "EVERY live cell and EVERY halfface of the mesh is queried (enumerated, constant; larger bases split over 2-3 shards by halfface range); free symbolic: the vertex argument vh (any vertex index of the mesh) of "
+                "EVERY live cell and EVERY halfface of the mesh is queried (enumerated, constant; larger bases split over 2-4 shards by halfface range); free symbolic: the vertex argument vh (any vertex index of the mesh) of "
                 "get_cell_vertices(ch,vh) / vertex_opposite_halfface / get_halfface_vertices(hfh,vh) and the halfedge argument heh (any halfedge index) of "
                 "get_cell_vertices(hfh,heh) / get_halfface_vertices(hfh,heh); tv_iter / tet_vertices compared element-wise with the brute-force tuple"),
     dict(name="c15-labels", harness="C15_labels.cpp", entries=["harness_c15_labels"], units=_C15_UNITS, unwind=40, checks="none", object_bits=13,
